@@ -48,6 +48,12 @@ def parseMantissa (cs : List Char) : Option Rat :=
     else none
   | _ => none
 
+/-- `strconv.ParseFloat` fails with a range error when the number rounds to ±Inf: from `MaxFloat64` plus half a unit in
+the last place on, i.e. 2^1024 − 2^970 (the line is then dropped like a malformed one) -/
+def overflows (q : Rat) : Bool := decide ((2 : Rat) ^ 1024 - (2 : Rat) ^ 970 ≤ (if q < 0 then -q else q))
+
+def inRange (q : Rat) : Option Rat := if overflows q then none else some q
+
 /-- the decimal subset of `strconv.ParseFloat`: sign, mantissa, optional exponent -/
 def parseFloat (cs : List Char) : Option Rat :=
   let (neg, body) := match cs with
@@ -61,14 +67,14 @@ def parseFloat (cs : List Char) : Option Rat :=
   | some m =>
     let signed : Rat := if neg then -m else m
     match ex with
-    | [] => some signed
+    | [] => inRange signed
     | _ :: e =>
       let (eneg, ed) := match e with
         | '-' :: r => (true, r)
         | '+' :: r => (false, r)
         | r => (false, r)
       if ed.isEmpty || !ed.all isDig then none
-      else if eneg then some (signed / pow10 (natOf ed)) else some (signed * pow10 (natOf ed))
+      else if eneg then inRange (signed / pow10 (natOf ed)) else inRange (signed * pow10 (natOf ed))
 
 /-- `(?:\d+(?:\.\d+)?|\.\d+)` -/
 def isDeltaSecs (cs : List Char) : Bool :=
